@@ -404,6 +404,10 @@ def run(ctx):
                    "log cleaning removes exactly the logs of targets that left the workflow, none when switched off or on a dry run", select=lambda d: "log" in d or "ends with" in d)
     from .shared import rule_config_switch
     rule_config_switch(ctx, r6, "clean_logs", "`gwf run` decides whether to clean logs (config.get('clean_logs'))")
+    # "none when log cleaning is switched off" - by whatever route the user switches it off: text that reaches the configuration is coerced like `config set` does it
+    from .evalhelpers import cli_overrides_witness
+    report_witness(r6, "src/gwf/cli.py::main::text-options", "src/gwf/cli.py:1", cached_witness(ctx, "cli-overrides", cli_overrides_witness),
+                   "clean_logs=false given through a KEY=VALUE option of the group (if there is one) reads as False")
     from .evalhelpers import cached_witness, report_witness, workflow_api_witness, task_coroutine_witness
     ww = cached_witness(ctx, "workflow-api", workflow_api_witness)
     report_witness(r5, "src/gwf/workflow.py::Workflow::witnesses", "src/gwf/workflow.py:1", ww, "workflow default < template < per-target argument, evaluated on a symbolic workflow",
